@@ -140,6 +140,12 @@ Count(s, x) == Cardinality({i \in DOMAIN s : s[i] = x})
 BagEq(s, u) == /\ Len(s) = Len(u)
                /\ \A i \in DOMAIN s : Count(s, s[i]) = Count(u, s[i])
 
+\* the non-NULL elements of a sequence of values, in order
+NonNullArgs(s) == FilterSeq(s, {i \in DOMAIN s : ~IsNull(s[i])})
+
+\* constant names are TLA+ strings (record fields); the few the models use, as code points
+KeyText(k) == CASE k = "k" -> <<107>> [] k = "s" -> <<115>> [] k = "pi" -> <<112, 105>> [] OTHER -> <<-3>>
+
 AnyErr(s) == \E i \in DOMAIN s : IsErr(s[i])
 
 \* first-occurrence de-duplication
